@@ -261,6 +261,34 @@ func c06AllEventHooks() []eng.Hook {
 	return c06HooksEveryEvent(rand.New(rand.NewSource(6)))
 }
 
+
+// c06RichProduct: install x {post-renderer, capabilities from discovery, ClientOnly} with crds/,
+// CreateNamespace, a REST client getter, two lookups (once with the CRD already in the cluster),
+// and an upgrade with post-renderer + discovery + lookup, for each spelling.
+func c06RichProduct(sps []c06Spelling, setup func() []*eng.Op) []any {
+	var out []any
+	for _, sp := range sps {
+		for m := 0; m < 8; m++ {
+			op := c06Mk("install", 7, eng.Flags{DryRun: sp.B, DryRunOption: sp.Opt, ClientOnly: m&4 != 0}, "a", "c")
+			op.Hooks = c06AllEventHooks()
+			w := &c06Wide{CRDs: true, CreateNamespace: true, PostRender: m&1 != 0, Getter: true, NilCaps: m&2 != 0, Lookups: 2,
+				CRDExists: m == 3, Notes: true, Subchart: m&1 != 0}
+			out = append(out, c06Case{Backend: "secret", Shape: "empty", Op: op, Wide: w})
+		}
+		up := c06Mk("upgrade", 7, eng.Flags{DryRun: sp.B, DryRunOption: sp.Opt, MaxHistory: 2}, "a", "c")
+		up.Hooks = c06AllEventHooks()
+		out = append(out, c06Case{Backend: "secret", Setup: setup(), Shape: "deployed3", Op: up,
+			Wide: &c06Wide{CRDs: true, PostRender: true, Getter: true, NilCaps: true, Lookups: 1, Subchart: true}})
+	}
+	return out
+}
+
+func c06CorpusSetup() []*eng.Op {
+	last := c06Mk("upgrade", 3, eng.Flags{}, "a", "b")
+	last.Hooks = c06AllEventHooks() // the deployed revision has a hook on every event
+	return []*eng.Op{c06Mk("install", 1, eng.Flags{}, "a"), c06Mk("upgrade", 2, eng.Flags{}, "a", "b"), last}
+}
+
 func (*c06) Corpus() []any {
 	var out []any
 	setup := func() []*eng.Op {
@@ -309,20 +337,8 @@ func (*c06) Corpus() []any {
 		}
 	}
 	// richer model: what a real install does with crds/, CreateNamespace, post-renderer, lookups,
-	// discovery - and the same runs under every dry spelling
-	for _, sp := range append([]c06Spelling{{false, ""}, {false, "none"}, {false, "false"}}, c06DrySpellings...) {
-		for m := 0; m < 8; m++ {
-			op := c06Mk("install", 7, eng.Flags{DryRun: sp.B, DryRunOption: sp.Opt, ClientOnly: m&4 != 0}, "a", "c")
-			op.Hooks = c06AllEventHooks()
-			w := &c06Wide{CRDs: true, CreateNamespace: true, PostRender: m&1 != 0, Getter: true, NilCaps: m&2 != 0, Lookups: 2,
-				CRDExists: m == 3, Notes: true, Subchart: m&1 != 0}
-			out = append(out, c06Case{Backend: "secret", Shape: "empty", Op: op, Wide: w})
-		}
-		up := c06Mk("upgrade", 7, eng.Flags{DryRun: sp.B, DryRunOption: sp.Opt, MaxHistory: 2}, "a", "c")
-		up.Hooks = c06AllEventHooks()
-		out = append(out, c06Case{Backend: "secret", Setup: setup(), Shape: "deployed3", Op: up,
-			Wide: &c06Wide{CRDs: true, PostRender: true, Getter: true, NilCaps: true, Lookups: 1, Subchart: true}})
-	}
+	// discovery - and the same runs under dry spellings (the other spellings: Exhaustive)
+	out = append(out, c06RichProduct([]c06Spelling{{false, ""}, {false, "none"}, {true, ""}, {false, "server"}, {false, "client"}}, setup)...)
 	// the namespace exists already; no getter and no lookups; replace on an uninstalled release
 	{
 		op := c06Mk("install", 7, eng.Flags{Replace: true}, "a", "c")
@@ -429,6 +445,8 @@ func (*c06) Exhaustive(tier string) []any {
 	if !thorough {
 		return out
 	}
+	// richer model: the remaining spellings of the corpus product
+	out = append(out, c06RichProduct([]c06Spelling{{false, "false"}, {false, "true"}, {true, "none"}, {true, "false"}, {true, "server"}}, c06CorpusSetup)...)
 	// wide flag records: install 2^9, upgrade 2^8, on a chart with every feature
 	for _, sh := range shapes {
 		for _, s := range spell {
